@@ -158,7 +158,7 @@ Proof.
   destruct (spec_body (h_Version h) (bd_Message b)) as [l|] eqn:El; [|discriminate]. cbn [obind] in Hbody. assert (El' : ser_all l = mb) by congruence.
   assert (E4 : 4 <= h_Version h -> spec_from_v4 (h_Version h) = true).
   { intro H4. destruct (supported_cases _ Hv) as [E|[E|[E|[E|[E|E]]]]]; rewrite E in *; try reflexivity; lia. }
-  unfold has_tracing_id in Ht. rewrite !has_spec in *.
+  unfold has_tracing_id in Ht. unfold has_warnings in Hw. rewrite !has_spec in *.
   change HeaderFlagTracing with spec_flag_tracing in *. change HeaderFlagWarning with spec_flag_warning in *.
   change HeaderFlagCustomPayload with spec_flag_payload in *.
   set (resp := msg_is_response (bd_Message b)) in *.
@@ -173,12 +173,12 @@ Proof.
   (* warnings *)
   set (wn := if spec_from_v4 (h_Version h) && has_flag (h_Flags h) spec_flag_warning && resp then [NStringList (olist (bd_Warnings b))] else []).
   assert (W : forallb notation_ok wn = true /\
-              ser_all wn = (if has_flag (h_Flags h) spec_flag_warning then enc_string_list (olist (bd_Warnings b)) else [])).
-  { unfold wn. destruct (has_flag (h_Flags h) spec_flag_warning).
-    - destruct Hw as (Hr & H4w & wl & Hwl & Hwn & Hws). rewrite Hr, Hwl, (E4 H4w). cbn [andb olist forallb]. split.
+              ser_all wn = (if has_flag (h_Flags h) spec_flag_warning && resp then enc_string_list (olist (bd_Warnings b)) else [])).
+  { unfold wn. rewrite <- andb_assoc. destruct (has_flag (h_Flags h) spec_flag_warning && resp).
+    - destruct Hw as (H4w & wl & Hwl & Hwn & Hws). rewrite Hwl, (E4 H4w). cbn [andb olist forallb]. split.
       + rewrite string_list_nok by assumption. reflexivity.
       + apply ser_all_one.
-    - rewrite andb_false_r. cbn [andb]. split; reflexivity. }
+    - rewrite andb_false_r. split; reflexivity. }
   destruct W as (W2 & W3).
   (* custom payload *)
   set (pn := if spec_from_v4 (h_Version h) && has_flag (h_Flags h) spec_flag_payload then [NBytesMap (bd_CustomPayload b)] else []).
@@ -195,7 +195,7 @@ Proof.
   destruct P as (P2 & P3).
   unfold spec_frame_body. rewrite El. cbn [obind]. unfold spec_frame_prefix. rewrite <- is_response_spec. fold resp. rewrite T1. cbn [obind].
   fold wn. fold pn. rewrite !forallb_app, T2, W2, P2. cbn [guard obind andb].
-  rewrite !ser_all_app, T3, W3, P3, El'. unfold body_bytes, has_tracing_id.
+  rewrite !ser_all_app, T3, W3, P3, El'. unfold body_bytes, has_tracing_id, has_warnings.
   rewrite <- ?app_assoc. reflexivity.
 Qed.
 
